@@ -89,8 +89,8 @@ def crv(r):
         return "(RArr (%d) [" % r[1] + "; ".join("None" if x is None else "(Some %s)" % crv(x) for x in r[2]) + "])"
     if k == "dict":
         es = r[2]
-        if all(kk[0] == "str" for kk, _ in es):
-            es = sorted(es, key=lambda p: p[0][2])
+        if all(kk[0] in ("str", "empty") for kk, _ in es):      # the model lists string-keyed entries in key order
+            es = sorted(es, key=lambda p: p[0][2] if p[0][0] == "str" else [])
         return "(RDict %s [" % cbool(r[1]) + "; ".join("(%s, %s)" % (crv(a), crv(b)) for a, b in es) + "])"
     if k == "set":
         return "(RSet %s [" % cbool(r[1]) + "; ".join(crv(x) for x in r[2]) + "])"
@@ -405,6 +405,45 @@ def rv_of_doc(d, strict):
     return ["dict", False, [[(["str", 0, [ord(c) for c in k]] if k else ["empty"]), rv_of_doc(v, strict)] for k, v in sorted(d.items())]]
 
 
+EK_KEYS = ["a", "b", "k1", "k2", "é", "x y", "z", "0", "s", "v", "k3", "k4", "k5", "k6", "k7", "k8", "k9", "@", "A", "~"]
+
+
+def gen_empty_key_doc(rng):
+    """an object holding the empty key next to 1-4 (sometimes 9-12) other keys, at top level, nested in an
+    object, inside an array or inside another such object; each evaluation builds the dict anew, so the
+    position of the empty key in the enumeration order varies from case to case"""
+    leaf = lambda: rng.choice([1, 2.5, "x", True, None, [1], {"q": 1}, "", [], False])
+
+    def obj():
+        n = rng.randrange(9, 13) if rng.random() < 0.2 else rng.randrange(1, 5)
+        items = [(k, leaf()) for k in rng.sample(EK_KEYS, n)] + [("", leaf())]
+        rng.shuffle(items)
+        return dict(items)
+    o = obj()
+    r = rng.random()
+    if r < 0.4:
+        return o
+    if r < 0.6:
+        return {"o": o, "p": 1}
+    if r < 0.8:
+        return [1, o, "t"]
+    if r < 0.9:
+        o[rng.choice(EK_KEYS)] = obj()
+        return o
+    return [[o], {"w": [o, obj()]}]
+
+
+def shuffle_dicts(r, rng):
+    """list the entries of every dict literal in a random order (a literal of <= 8 entries enumerates in that order)"""
+    if not isinstance(r, list):
+        return r
+    if r[:1] == ["dict"]:
+        es = [[shuffle_dicts(k, rng), shuffle_dicts(v, rng)] for k, v in r[2]]
+        rng.shuffle(es)
+        return ["dict", r[1], es]
+    return [shuffle_dicts(x, rng) for x in r]
+
+
 def gen_rv(rng, depth, wire=False):
     """arbitrary values: mostly decoder images with one mutation, some free-form"""
     r = rng.random()
@@ -542,6 +581,9 @@ def gen_cases(rng, tier):
     for codec in ("json", "yaml"):
         add({"kind": "round", "codec": codec, "strict": True, "doc": {"a": [1, "", [], {}, None, True, False, 1.5]}})
         add({"kind": "round", "codec": codec, "strict": True, "doc": {"": 1}})
+        for d in ({"": 1, "k2": 2}, {"k1": 1, "": 2, "k3": [3]}, [{"a": 1, "": {"": 2, "b": 3}}], {"o": {"x": 1, "y": 2, "": 3, "z": 4}}):
+            add({"kind": "round", "codec": codec, "strict": True, "doc": d})
+            add({"kind": "round", "codec": codec, "strict": False, "doc": d})
         add({"kind": "round", "codec": codec, "strict": False, "doc": {"a": [], "b": ""}})
         for r in ([["set", True, [["num", 2], ["num", 4]]], ["arr", 0, [["num", 2], None, ["num", 6]]],
                    ["tup", [["s", ["str", 1, [98, 99]]]]], ["dict", True, [[["str", 0, [97]], ["num", 2]], [["str", 0, [97]], ["num", 4]]]],
@@ -575,7 +617,15 @@ def gen_cases(rng, tier):
     add({"kind": "impl", "what": "yaml_uint64"})
     add({"kind": "impl", "what": "yaml_merge_key"})
 
-    for _ in range(150 * n):
+    # the empty key next to other keys: decode -> encode -> decode chains and encoder inputs, both codecs and modes
+    for i in range(28 * n):
+        d = gen_empty_key_doc(rng)
+        codec, strict = ("json", "yaml")[i % 2], (True, True, False)[i % 3]
+        if i % 4 == 3:
+            add({"kind": "enc", "codec": codec, "strict": strict, "rv": shuffle_dicts(rv_of_doc(d, strict), rng)})
+        else:
+            add({"kind": "round", "codec": codec, "strict": strict, "doc": d})
+    for _ in range(130 * n):
         codec = "json" if rng.random() < 0.7 else "yaml"
         strict = rng.random() < 0.7
         alpha = ALPHA if codec == "json" else ALPHA[:8]
